@@ -62,6 +62,11 @@ CHECKS['C06'] = ('fault_enumeration', '§5 C06',
     'Whether arguments right of an erroring argument are evaluated is unspecified; set_default skipping its value for a present key is pinned by the shipped suite and not demanded; pool values that do not type are skipped.',
     'fault injection at every argument position + limit sweep through every catcher context')
 
+CHECKS['C07'] = ('model_checking', '§5 C07',
+    '31 recursive-function templates place the self-call in every syntactic position: tail carriers (if branches, nested if, if_error 2nd/3rd, and/or second operand, Optional or (both overloads)/and/map_or default, cast, to_str, local lets) and non-tail positions (under an operator, argument of a user function, inside a called lambda / nested fn, array and tuple literals, if condition, first operand of and / if_error / Optional or, map callback, mutual recursion), plus alias and partial (value only). For iteration counts 0,1,2,3,7,50,1000 (100000 thorough) and limit configurations: the value equals plain recursion; tail carriers pass depth limit 4 for every n, make no additional user calls per iteration (hook counter), and end in MaximumRecursion exactly when n exceeds the limit (L in n-1,n,n+1); non-tail positions end in MaximumStackDepth under depth 3 and never in MaximumRecursion.',
+    'The reference evaluator has no TCO (plain recursion); classification of each template as tail / non-tail is by the book rule; alias/partial may be optimised or not.',
+    'exhaustive enumeration of call positions x iteration counts x limit configurations vs reference semantics without TCO')
+
 NA = {
 }
 
